@@ -5,7 +5,7 @@ from .common import tlax
 
 
 def design(keys: List[str], none_keys: List[str], npaths: int, cap: int, cache_absent: bool,
-           store_kind: str, max_ops: int, gen: bool, max_sync: int = 2) -> str:
+           store_kind: str, max_ops: int, gen: bool, max_sync: int = 2, sync_absent: bool = False) -> str:
     import itertools
     sync_sets = set()
     for n in range(1, max_sync + 1):
@@ -22,6 +22,7 @@ def design(keys: List[str], none_keys: List[str], npaths: int, cap: int, cache_a
         "MaxOps == %d" % max_ops,
         "GenMode == %s" % tlax(gen),
         "SyncSets == %s" % tlax(sync_sets),
+        "SyncAbsent == %s" % tlax(sync_absent),
         "====", ""])
 
 
@@ -41,4 +42,5 @@ def trace() -> str:
         "MaxOps == 1000000",
         "GenMode == FALSE",
         "SyncSets == {}",
+        "SyncAbsent == TRUE",
         "====", ""])
